@@ -1126,6 +1126,13 @@ def binop(op, a, b, ty=None):
     with_ovf = op.endswith('WithOverflow')
     if with_ovf and ty and ty.startswith('('):
         ty = ty[1:].split(',')[0].strip()
+    if base in CMP:
+        # character constants compare by code point (switches on chars carry the code point as an integer)
+        def _ordc(t):
+            if is_const(t) and isinstance(t[1], tuple) and t[1] and t[1][0] == 'char' and isinstance(t[1][1], str) and len(t[1][1]) == 1:
+                return C(ord(t[1][1]))
+            return t
+        a, b = _ordc(a), _ordc(b)
     if is_const(a) and is_const(b) and isinstance(a[1], (int, bool)) and isinstance(b[1], (int, bool)):
         x, y = a[1], b[1]
         r = None
